@@ -20,6 +20,8 @@ partial def loopPure (step : List String → String) (h : IO.FS.Stream) (out : I
     else out.putStrLn (step f)
     loopPure step h out
 
+def trunc (s : String) : String := if s.length > 120 then (s.take 120).toString else s
+
 partial def loopState {σ : Type} (init : σ) (step : σ → List String → σ × List String)
     (h : IO.FS.Stream) (out : IO.FS.Stream) (st : σ) : IO Unit := do
   let line ← h.getLine
@@ -36,6 +38,7 @@ partial def loopState {σ : Type} (init : σ) (step : σ → List String → σ 
       out.putStrLn (" ".intercalate f)
       loopState init step h out st
     else
+      out.putStrLn ("> " ++ trunc l)
       let (st', lines) := step st f
       for ln in lines do out.putStrLn ln
       loopState init step h out st'
